@@ -19,8 +19,19 @@ type accessRec struct {
 	rel   []Ptr // sync objects this thread released after the access without an intervening scheduling point
 }
 
+// ghostRec: an access of the final block of a thread that has exited. Thread exit is not a synchronisation, so
+// these accesses stay unordered with everything that does not acquire something the thread released after them.
+type ghostRec struct {
+	accessRec
+	owner  ThreadID
+	blocks int
+	idx    int
+}
+
+const maxGhosts = 512
+
 func (e *Engine) noteAccess(st *State, p Ptr, n int, write bool) {
-	if !e.RaceCheck || len(st.Threads) < 2 || e.curThread == 0 {
+	if !e.RaceCheck || (len(st.Threads) < 2 && len(st.Ghosts) == 0) || e.curThread == 0 {
 		return
 	}
 	ti := st.threadIdx(e.curThread)
@@ -32,7 +43,7 @@ func (e *Engine) noteAccess(st *State, p Ptr, n int, write bool) {
 		return
 	}
 	for _, ot := range st.Threads {
-		if ot.ID == th.ID || ot.Exited {
+		if ot.ID == th.ID {
 			continue
 		}
 		skip := 0
@@ -54,6 +65,23 @@ func (e *Engine) noteAccess(st *State, p Ptr, n int, write bool) {
 			if a.off < p.Off+n && p.Off < a.off+a.n {
 				e.recordRace(st, p, a.instr, e.curInstr, a.write, write)
 			}
+		}
+	}
+	for _, g := range st.Ghosts {
+		if g.obj != p.Obj || !(write || g.write) {
+			continue
+		}
+		ordered := false
+		for _, b := range th.Bars {
+			if b.parent == g.owner && b.blocks == g.blocks && g.idx < b.n {
+				ordered = true // the exited thread spawned (an ancestor of) this one after the access
+			}
+		}
+		if ordered || (len(g.rel) > 0 && holdsAny(th, g.rel)) {
+			continue
+		}
+		if g.off < p.Off+n && p.Off < g.off+g.n {
+			e.recordRace(st, p, g.instr, e.curInstr, g.write, write)
 		}
 	}
 	w := st.threadW(ti)
